@@ -96,6 +96,59 @@ theorem Sess.no_stray_handler (s : Sess σ) (w j j' : Nat) (i : Input σ α) (in
   have := ((Sess.ran_iff s w j' i info).1 h).1
   rw [hw] at this; cases this; rfl
 
+/-! ### Several values -/
+
+theorem World.run_state (wd : World σ) (evs : List (WEv σ α)) :
+    (wd.run evs).1 = { vals := wd.vals ++ makesOf evs, wrappers := wd.wrappers ++ wrapsOfW evs } := by
+  induction evs generalizing wd with
+  | nil => simp [World.run, makesOf, wrapsOfW]
+  | cons e es ih =>
+    cases e with
+    | make o => simp [World.run, World.step, ih, makesOf, wrapsOfW]
+    | wrap v j => simp [World.run, World.step, ih, makesOf, wrapsOfW]
+    | req w i => simp [World.run, World.step, ih, makesOf, wrapsOfW]
+
+theorem World.run_length (wd : World σ) (evs : List (WEv σ α)) : (wd.run evs).2.length = evs.length := by
+  induction evs generalizing wd with
+  | nil => simp [World.run]
+  | cons e es ih => simp [World.run, ih]
+
+theorem World.run_append (wd : World σ) (pre post : List (WEv σ α)) :
+    (wd.run (pre ++ post)).2 = (wd.run pre).2 ++ ((wd.run pre).1.run post).2 := by
+  induction pre generalizing wd with
+  | nil => simp [World.run]
+  | cons e es ih => simp [World.run, ih]
+
+/-- History independence with several values: the requests that went before — through this value or
+any other — leave no trace; only the makes and applications count, each by appending. -/
+theorem World.history_independent (wd : World σ) (pre post : List (WEv σ α)) (w : Nat) (i : Input σ α) :
+    (wd.run (pre ++ WEv.req w i :: post)).2[pre.length]? =
+      some (World.serveVia { vals := wd.vals ++ makesOf pre, wrappers := wd.wrappers ++ wrapsOfW pre } w i) := by
+  rw [World.run_append]
+  have hl := World.run_length wd pre
+  rw [List.getElem?_append_right (by omega)]
+  simp [hl, World.run, World.step, World.run_state]
+
+/-- **Values do not see each other.**  A wrapper made from value `v` (options `o`) for handler `j`
+answers every request — after any further history of makes, applications and requests through any
+value — exactly as the one-value model of `v` alone does: `serve` under `o`, handler `j`. -/
+theorem World.value_independent (wd : World σ) (evs : List (WEv σ α)) (w v j : Nat) (o : Option (Opts σ))
+    (hw : wd.wrappers[w]? = some (v, j)) (hv : wd.vals[v]? = some o) (i : Input σ α) :
+    (wd.run evs).1.serveVia w i = Sess.serveVia { opts := o, wrappers := [j] } 0 i := by
+  rw [World.run_state]
+  have hw' : w < wd.wrappers.length := by
+    rcases Nat.lt_or_ge w wd.wrappers.length with h' | h'
+    · exact h'
+    · rw [List.getElem?_eq_none h'] at hw; cases hw
+  have hv' : v < wd.vals.length := by
+    rcases Nat.lt_or_ge v wd.vals.length with h' | h'
+    · exact h'
+    · rw [List.getElem?_eq_none h'] at hv; cases hv
+  simp only [World.serveVia]
+  rw [List.getElem?_append_left hw', hw]
+  simp only []
+  rw [List.getElem?_append_left hv', hv]
+
 /-! ### Requests in flight -/
 
 /-- The two atomic sections of the closure, one after the other, are `Bearer.serve`. -/
@@ -225,6 +278,59 @@ theorem runsOf_made (nh made n : Nat) (h : made < nh) : (runsOf nh made n)[made]
 /-- The request of a `sreq` record carries its identities. -/
 theorem ofSession_tagged (opts : Option (Opts String)) (hdr : List Char) (s : Script) :
     (Req.ofSession opts hdr s).Tagged := ofScript_tagged _ _ _
+
+/-- The request of a `sreq` record, as the session model's event sees it. -/
+def Script.sessInput (sc : Script) (hdr : List Char) : Input String Tag := (sc.layer 0).input hdr []
+
+/-- **What the driver renders for a `sreq` record is the session model's answer**: for a request
+through wrapper `w` (made for handler `made`) of the value `s`, the observation `sessObsOf` derives
+says "handler ran" exactly when `Sess.serveVia` runs handler `made`, and then only `made`'s count is
+1; otherwise `serveVia` answers with an error whose status is the observation's. -/
+theorem sessObsOf_serveVia (s : Sess String) (nh w made : Nat) (hdr : List Char) (sc : Script)
+    (hw : s.wrappers[w]? = some made) (o : SObs)
+    (ho : sessObsOf nh made (Req.ofSession s.opts hdr sc) = some o) :
+    (o.obs.ran = 1 ∧ o.hr = runsOf nh made 1 ∧ ∃ info, s.serveVia w (sc.sessInput hdr) = .ran made info) ∨
+    (o.obs.ran = 0 ∧ o.hr = runsOf nh made 0 ∧
+      ∃ msg ch, s.serveVia w (sc.sessInput hdr) = .error o.obs.status msg ch) := by
+  obtain ⟨o', ho', _, ha, h1, h0⟩ := obsOf_some (Req.ofSession s.opts hdr sc)
+  simp only [sessObsOf, ho', Option.map_some, Option.some.injEq] at ho
+  subst ho
+  have hst : stack (Req.ofSession s.opts hdr sc).hdr (Req.ofSession s.opts hdr sc).layers (Req.ofSession s.opts hdr sc).ctx =
+      match serve (s.input (sc.sessInput hdr)) with
+      | .next info => .handler [info]
+      | .error c m ch => .error c m ch := by
+    simp only [Req.ofSession, Req.ofScript, layersFrom, stack, Script.sessInput, Sess.input, Layer.input, Script.layer,
+      withTokenInfo]
+    split <;> simp_all
+  simp only [Sess.serveVia, hw]
+  cases hs : serve (s.input (sc.sessInput hdr)) with
+  | next info =>
+    rw [hs] at hst
+    left
+    have := h1 ⟨_, hst⟩
+    exact ⟨this, by rw [this], info, rfl⟩
+  | error c m ch =>
+    rw [hs] at hst
+    right
+    have hne : ¬ ∃ cx, stack (Req.ofSession s.opts hdr sc).hdr (Req.ofSession s.opts hdr sc).layers
+        (Req.ofSession s.opts hdr sc).ctx = .handler cx := by
+      rw [hst]; rintro ⟨_, h⟩; cases h
+    have := h0 hne
+    rw [hst] at ha
+    refine ⟨this, by rw [this], m, ch, ?_⟩
+    simp only [Answers] at ha
+    rw [ha.1]
+
+/-- The same for the driver's state with several values: the model line of a `sreq` record is the
+world model's answer to the request through that wrapper. -/
+theorem sessObsOf_worldServeVia (wd : World String) (nh w v made : Nat) (opts : Option (Opts String))
+    (hdr : List Char) (sc : Script) (hw : wd.wrappers[w]? = some (v, made)) (hv : wd.vals[v]? = some opts)
+    (o : SObs) (ho : sessObsOf nh made (Req.ofSession opts hdr sc) = some o) :
+    (o.obs.ran = 1 ∧ o.hr = runsOf nh made 1 ∧ ∃ info, wd.serveVia w (sc.sessInput hdr) = .ran made info) ∨
+    (o.obs.ran = 0 ∧ o.hr = runsOf nh made 0 ∧
+      ∃ msg ch, wd.serveVia w (sc.sessInput hdr) = .error o.obs.status msg ch) := by
+  simp only [World.serveVia, hw, hv]
+  exact sessObsOf_serveVia { opts := opts, wrappers := [made] } nh 0 made hdr sc rfl o ho
 
 /-- **No alarm on the model** (sessions): on what the model does with a request of a session, the
 session monitor reports nothing. -/
